@@ -8,19 +8,26 @@
    position (a vertex, or a point on the segment ending at the vertex the
    search selected).
 
-   NOT proved (T19b/T19c of DESIGN; this property is therefore PARTIAL):
-     (1) forall curve, position_at 0 = first path point /\ position_at 1 = last
-         (progress 0 IS proved below for curves without a leading zero-length
-         segment: C19_progress_zero_is_first_vertex; progress 1 is not);
-     (2) forall a b, |position_at a - position_at b| <= |a - b| * dist;
-     (3) forall i, position_at (lengths[i] / dist) = path[i].
-   They are statements about real arithmetic (the cumulative lengths being the
-   polyline lengths) and hold in IEEE arithmetic only up to rounding; (1)
-   additionally fails literally when several leading vertices have cumulative
-   length 0 (the search may select any of them) and on D11 curves (NaN end
-   point).  They are monitored by the search oracle of harness/src/c19.rs with
-   an explicit rounding slack. *)
-From RM Require Import Model.ControlPoints Model.Curve Proofs.PositionFacts Proofs.LengthFacts.
+   Also proved: progress 1 and a vertex's own cumulative length in IEEE
+   arithmetic (the weight is exactly 1: the result is p0 + (p1 - p0), the
+   vertex up to ONE rounding), under finiteness hypotheses and "the last
+   length is strictly above the others"; and T19b per segment in exact
+   arithmetic, on the interpolation formula shared with the model: vertex
+   hits at both ends, 1-Lipschitz / isometry in the distance, convexity.
+
+   NOT proved (the property stays PARTIAL):
+     - the Lipschitz bound ACROSS segments (triangle inequality along the
+       polyline) and its IEEE version with rounding slack;
+     - vertex hits at progress lengths[i] / dist (the division and the
+       multiplication by dist round; only d = lengths[i] itself is covered);
+     - progress 1 when the last cumulative length is repeated (duplicate end:
+       the search may select any of the equal entries).
+   They are monitored by the search oracle of harness/src/c19.rs with an
+   explicit rounding slack. *)
+From Coq Require Import Reals.
+From Flocq Require Import IEEE754.BinarySingleNaN.
+From RM Require Import Model.ControlPoints Model.Curve Proofs.PositionFacts Proofs.LengthFacts
+  Proofs.FloatFacts Proofs.InterpExact.
 Open Scope Z_scope.
 
 (* ---------- progress -> distance: clamping ---------- *)
@@ -132,6 +139,83 @@ Theorem C19_progress_zero_is_first_vertex :
   position_at (first :: path) (D.zero :: t) D.zero = Done first.
 Proof. exact position_at_zero. Qed.
 Print Assumptions C19_progress_zero_is_first_vertex.
+
+(* ---------- progress 1 and vertex hits, IEEE arithmetic ---------- *)
+
+(* progress 1: the distance is EXACTLY the last cumulative length, and the
+   search selects the last index when that length is strictly above the others *)
+Theorem C19_progress_one_distance_and_index :
+  forall pre L, fin64 L -> Forall (fun x => D.lt x L = true) pre ->
+  progress_to_dist (pre ++ [L]) D.one = L /\ idx_of_dist (pre ++ [L]) L = length pre.
+Proof. exact progress_one_selects_last. Qed.
+Print Assumptions C19_progress_one_distance_and_index.
+
+(* at a vertex's own cumulative length the interpolation weight is exactly 1:
+   the position is p0 + (p1 - p0) (or p0 under the near-zero-segment guard) *)
+Theorem C19_position_at_vertex_length :
+  forall path lengths i p0 p1 d0 d1,
+  nth_error path i = Some p0 -> nth_error path (S i) = Some p1 ->
+  nth_error lengths i = Some d0 -> nth_error lengths (S i) = Some d1 ->
+  fin64 (D.sub d1 d0) -> B2R (D.sub d1 d0) <> 0%R ->
+  fin32 (px (psub p1 p0)) -> fin32 (py (psub p1 p0)) ->
+  interpolate_vertices path lengths (S i) d1 =
+  Done (if D.le (D.abs (D.sub d0 d1)) D.eps then p0 else padd p0 (psub p1 p0)).
+Proof. exact interpolate_at_own_length. Qed.
+Print Assumptions C19_position_at_vertex_length.
+
+(* progress 1: the last vertex q up to the single rounding of p0 + (q - p0) *)
+Theorem C19_progress_one_is_last_vertex :
+  forall ppre p0 q pre d0 L,
+  length ppre = length pre ->
+  fin64 L -> Forall (fun x => D.lt x L = true) (pre ++ [d0]) ->
+  fin64 (D.sub L d0) -> B2R (D.sub L d0) <> 0%R ->
+  fin32 (px (psub q p0)) -> fin32 (py (psub q p0)) ->
+  position_at ((ppre ++ [p0]) ++ [q]) ((pre ++ [d0]) ++ [L]) D.one =
+  Done (if D.le (D.abs (D.sub d0 L)) D.eps then p0 else padd p0 (psub q p0)).
+Proof. exact position_at_one. Qed.
+Print Assumptions C19_progress_one_is_last_vertex.
+
+Theorem C19_progress_one_single_vertex :
+  forall q L, fin64 L -> position_at [q] [L] D.one = Done q.
+Proof. exact position_at_one_single. Qed.
+Print Assumptions C19_progress_one_single_vertex.
+
+(* ---------- T19b per segment, exact arithmetic ---------- *)
+
+(* the model's interpolation expression is the IEEE instance of one formula ... *)
+Theorem C19_model_interpolation_formula :
+  forall p0 p1 d0 d1 d,
+  padd p0 (pmul (psub p1 p0) (f32_of_f64 (D.div (D.sub d d0) (D.sub d1 d0)))) =
+  mkPos (interp_coord_g D.sub D.div f32_of_f64 S.add S.sub S.mul (px p0) (px p1) d0 d1 d)
+        (interp_coord_g D.sub D.div f32_of_f64 S.add S.sub S.mul (py p0) (py p1) d0 d1 d).
+Proof. exact model_interp. Qed.
+Print Assumptions C19_model_interpolation_formula.
+
+(* ... whose real instance hits both vertices, *)
+Theorem C19_exact_vertex_hits :
+  forall c0 c1 d0 d1 : R, d1 <> d0 ->
+  interp_R c0 c1 d0 d1 d0 = c0 /\ interp_R c0 c1 d0 d1 d1 = c1 /\ (c0 + (c1 - c0) = c1)%R.
+Proof. intros. split; [now apply interp_R_at_d0|]. split; [now apply interp_R_at_d1|apply end_value_R]. Qed.
+Print Assumptions C19_exact_vertex_hits.
+
+(* never moves farther than the arc length between two distances (bookkeeping
+   length >= geometric length), *)
+Theorem C19_exact_segment_lipschitz :
+  forall x0 y0 x1 y1 d0 d1 a b : R,
+  (d0 < d1)%R -> ((x1 - x0) ^ 2 + (y1 - y0) ^ 2 <= (d1 - d0) ^ 2)%R ->
+  ((interp_R x0 x1 d0 d1 a - interp_R x0 x1 d0 d1 b) ^ 2 +
+   (interp_R y0 y1 d0 d1 a - interp_R y0 y1 d0 d1 b) ^ 2 <= (a - b) ^ 2)%R.
+Proof. exact segment_lipschitz. Qed.
+Print Assumptions C19_exact_segment_lipschitz.
+
+(* and is an arc-length parametrisation when the lengths are the polyline's own *)
+Theorem C19_exact_segment_isometry :
+  forall x0 y0 x1 y1 d0 d1 a b : R,
+  (d0 < d1)%R -> ((x1 - x0) ^ 2 + (y1 - y0) ^ 2 = (d1 - d0) ^ 2)%R ->
+  ((interp_R x0 x1 d0 d1 a - interp_R x0 x1 d0 d1 b) ^ 2 +
+   (interp_R y0 y1 d0 d1 a - interp_R y0 y1 d0 d1 b) ^ 2 = (a - b) ^ 2)%R.
+Proof. exact segment_isometry. Qed.
+Print Assumptions C19_exact_segment_isometry.
 
 (* ---------- concrete readings (dumps) ---------- *)
 
